@@ -47,6 +47,16 @@ func GetDefaultTimeStats() *TimeStats {
 func AddSegStatsNums(segstats map[string]*SegStats, cname string,
 	inNumType SS_IntUintFloatTypes, intVal int64, uintVal uint64,
 	fltVal float64, bb *bbp.ByteBuffer, aggColUsage map[string]AggColUsageMode, hasValuesFunc bool, hasListFunc bool, hasPercFunc bool) {
+	addSegStatsNumsWithHllKey(segstats, cname, inNumType, intVal, uintVal, fltVal, nil, aggColUsage, hasValuesFunc, hasListFunc, hasPercFunc)
+}
+
+// addSegStatsNumsWithHllKey is AddSegStatsNums with the bytes that stand for the value in the distinct-count
+// sketch; nil = the 8 bytes of the number. The ingest-time statistics (addSegStatsStrIngestion in the writer)
+// insert a numeric string as its text, so the query-time statistics must do the same: the sketches of segments
+// answered from the .sst file and of segments computed from their records are merged.
+func addSegStatsNumsWithHllKey(segstats map[string]*SegStats, cname string,
+	inNumType SS_IntUintFloatTypes, intVal int64, uintVal uint64,
+	fltVal float64, hllKey []byte, aggColUsage map[string]AggColUsageMode, hasValuesFunc bool, hasListFunc bool, hasPercFunc bool) {
 
 	var stats *SegStats
 	var ok bool
@@ -86,7 +96,11 @@ func AddSegStatsNums(segstats map[string]*SegStats, cname string,
 		log.Warnf("AddSegStatsNums: unsupported inNumType: %v", inNumType)
 		return
 	}
-	stats.InsertIntoHll(bytes[:])
+	if hllKey != nil {
+		stats.InsertIntoHll(hllKey)
+	} else {
+		stats.InsertIntoHll(bytes[:])
+	}
 	processStats(stats, inNumType, intVal, uintVal, fltVal, colUsage, hasValuesFunc, hasListFunc, hasPercFunc)
 }
 
@@ -379,7 +393,7 @@ func AddSegStatsStr(segstats map[string]*SegStats, cname string, strVal string,
 	// the .sst file and stats recomputed from the raw records treat the same strings as numbers
 	floatVal, err := utils.FastParseFloat([]byte(strVal))
 	if err == nil {
-		AddSegStatsNums(segstats, cname, SS_FLOAT64, 0, 0, floatVal, bb, aggColUsage, hasValuesFunc, hasListFunc, hasPercFunc)
+		addSegStatsNumsWithHllKey(segstats, cname, SS_FLOAT64, 0, 0, floatVal, []byte(strVal), aggColUsage, hasValuesFunc, hasListFunc, hasPercFunc)
 		return
 	}
 
